@@ -37,6 +37,7 @@ def run(ctx):
     run.assumptions = ["TypeError and ValueError are inside the documented error family", "helpers reached only through CHA edges are not followed"]
     ctx.do(rule_wrapper)
     ctx.do(rule_raw_deref)
+    ctx.do(rule_check_ref_tolerant)
     ctx.do(rule_optional_subscript)
     ctx.do(rule_commit_last)
     ctx.do(rule_failed_write_leaves_no_file)
@@ -408,6 +409,39 @@ def rule_commit_last(ctx):
               "the store can be written before the object was parsed/validated (a failed addition leaves the store changed)",
               file=ad.module.relpath, line=ad.node.lineno, function=ad.qualname, expected="parse(...) then store._data[...] = ...",
               found=[n.lineno for n in writes])
+
+
+def rule_check_ref_tolerant(ctx):
+    """_Observable._check_ref runs OUTSIDE the exception wrapper of the property cleaners and looks the referenced key up in
+    `_valid_refs` -- a table that comes from the enclosing observed-data or, for an observable parsed on its own, straight from
+    the caller / the content.  Its entries have any shape: every dereference of one (a constant-key subscript, an attribute)
+    sits in a try that catches the lookup error, or under a presence test; else `_valid_refs: {'0': {}}` raises KeyError."""
+    from ..astutil import in_try_catching
+    run = ctx.run
+    prog = ctx.prog
+    R = "C17.raw-deref"
+    fi = prog.cls("stix2.base::_Observable").methods.get("_check_ref")
+    if fi is None:
+        raise AnalysisError("anchor missing: _Observable._check_ref")
+    n = 0
+    for x in body_walk(fi.node):
+        bad = None
+        if isinstance(x, ast.Subscript) and isinstance(x.ctx, ast.Load) and isinstance(x.slice, ast.Constant) and isinstance(x.slice.value, str):
+            if in_try_catching(x, names=("KeyError", "LookupError", "TypeError", "Exception", "BaseException")) is None and not any(
+                    pol and ("'%s' in %s" % (x.slice.value, norm(x.value))) in norm(t) for t, pol, _ in guard_chain(x)):
+                bad = ("KeyError", x)
+            n += 1
+        if isinstance(x, ast.Attribute) and isinstance(x.ctx, ast.Load) and isinstance(x.value, ast.Subscript) and "valid_refs" in norm(x.value):
+            n += 1
+            if in_try_catching(x, names=("AttributeError", "Exception", "BaseException")) is None:
+                bad = ("AttributeError", x)
+        if bad:
+            run.violation(R, key(fi.module.relpath, fi.qualname, "%s:%s" % (bad[0], short(bad[1], 40))),
+                          "%s can escape: an entry of the _valid_refs table (any shape when the observable is parsed on its own) is "
+                          "dereferenced as %s outside the cleaners' exception wrapper without a guard" % (bad[0], short(bad[1], 40)),
+                          file=fi.module.relpath, line=bad[1].lineno, function=fi.qualname,
+                          expected="try / except around the dereference (InvalidObjRefError)", found=short(bad[1], 60))
+    run.ok(R, key(fi.module.relpath, fi.qualname, "valid-refs-entries-dereferenced-under-guard"), "%d dereferences examined" % n)
 
 
 def rule_failed_write_leaves_no_file(ctx, rule_id="C17.commit-last"):
